@@ -23,7 +23,8 @@ RULE = ('hypothesis: configuration = 1..5 rules (entities subset of P/D/SD/T, pe
         'list, single string or None) x (user, object) role tables and object label tables (a general getter and a '
         'class-restricted getter each) x 1..7 linked objects. One evaluation = one (configuration, user, permission, target) '
         'has_perm decision (target = entity, attribute or object), asked 3 times (canonical order; re-ordered in the same '
-        'session; re-ordered in a new session) and, with the can_* wrappers, compared with the reference model; each to_json '
+        'session; re-ordered in a new session) and, with the can_* wrappers, compared with the reference model, then asked '
+        'twice more with Pony\'s rule sets iterated in declaration and in reversed order (answers must not move); each to_json '
         'call is one more evaluation. Non-trivial = at least one rule is registered for the permission on the target\'s entity '
         '(otherwise has_perm is False before any rule is looked at); distinct by (configuration hash, user, permission, target). '
         'Relationship attributes are only checked against the two implications the statement fixes.')
@@ -31,6 +32,9 @@ ASSUMPTIONS = ['reference decision function vlib/c34_model.py (entity / object /
                'relationship attributes: both sides granted => granted, granted => one side granted)',
                'role and label requirements are vacuous at entity and attribute level (there is no object to take them from)',
                'SQLite in-memory database through pony.orm.dbproviders.sqlite',
+               'the per-(entity, permission) rule container entity._access_rules_[perm] is a set iterated in an unspecified '
+               '(address-dependent) order; passes 4/5 replace it by a sequence of the same rules in declaration / reversed '
+               'order, which is one of the orders the set could have produced',
                'getter registries (pony.orm.core.usergroup_functions etc.) are process-global: six table-driven getters are '
                'registered once per worker process']
 SHARDS = {'quick': 4, 'thorough': 16}
@@ -154,6 +158,7 @@ def build(cfg):
     env.db = db
     env.entities = {'P': P, 'D': D, 'SD': SD, 'T': T}
     env.attrs = {}
+    env.rule_objs = []
     for a in M.ATTR_NAMES:
         e, n = a.split('.')
         env.attrs[a] = getattr(env.entities[e], n)
@@ -182,6 +187,7 @@ def build(cfg):
                     if v:
                         kw[k] = tuple(v)
             rule = perm(*args, **kw)
+            env.rule_objs.append(rule)
             xs = [env.entities[e] for e in r['excl_entities']] + [env.attrs[a] for a in r['excl_attrs']]
             if style % 2 == 0:
                 if xs:
@@ -208,6 +214,25 @@ def build(cfg):
             CUR['entity_users'][u['person'] + 1] = ui
     CUR['cfg'] = cfg
     return env
+
+
+class _Seq(list):
+    """stands in for the set in entity._access_rules_[perm]: same rules, iteration order chosen by the harness"""
+    def add(self, rule):
+        if rule not in self:
+            self.append(rule)
+
+
+def _set_rule_order(env, reverse):
+    """Pony keeps the rules of an (entity, permission) in a set of AccessRule objects hashed by address, so the order in
+    which has_perm meets them is unspecified.  Replace every such set by a sequence of the same rules in declaration
+    order (or reversed): any answer that changes with it depends on something the declared rules do not fix."""
+    index = {id(r): i for i, r in enumerate(env.rule_objs)}
+    for entity in env.entities.values():
+        for perm_name, rules in list(entity._access_rules_.items()):
+            ordered = sorted(rules, key=lambda r: index[id(r)], reverse=reverse)
+            assert len(ordered) == len(set(map(id, rules)))
+            entity._access_rules_[perm_name] = _Seq(ordered)
 
 
 def _user(env, cfg, ui):
@@ -318,6 +343,20 @@ def evaluate(cfg, report, count=None):
             for k in order(cfg['order']['stride'] * 7 + 3, cfg['order']['offset'] + 1):   # pass 3: new session
                 ui, fn, t = decisions[k]
                 judge(k, _ask(env, cfg, ui, fn, t), 3)
+        answers = []
+        for reverse in (False, True):                                 # pass 4/5: rule iteration order chosen by the harness,
+            with db_session:                                          # one fresh session (fresh permission cache) each
+                _set_rule_order(env, reverse)
+                answers.append({k: _ask(env, cfg, *decisions[k]) for k in range(n) if decisions[k][1] in M.PERMS})
+        if True:
+            for k in sorted(answers[0]):
+                a, b = answers[0][k], answers[1][k]
+                if a != b or a != first[k]:
+                    ui, fn, t = decisions[k]
+                    report({'kind': 'rule_order', 'user': ui, 'fn': fn, 'target': t, 'got': [first[k], a, b]},
+                           '%s(%s, %s) depends on the order in which Pony iterates its set of rules: %r as first asked, %r '
+                           'with the rules met in declaration order, %r in reverse declaration order; declared rules %s'
+                           % (fn, _describe(ref, cfg, ui, t), t[1], first[k], a, b, json.dumps(cfg['rules'], sort_keys=True)))
     finally:
         set_current_user(None)
         CUR['cfg'] = None
@@ -487,7 +526,7 @@ def run(ctx):
         def count(key, nontrivial, classes, sample):
             ctx.case(key=key, nontrivial=nontrivial, classes=classes, sample=sample)
         evaluate(cfg, report, count)
-    ctx.run_test(t, dict(cfg=configs()), max_examples=ctx.scale(500, 2500), name='rule_sets')
+    ctx.run_test(t, dict(cfg=configs()), max_examples=ctx.scale(500, 2000), name='rule_sets')
 
 
 def replay(case):
@@ -544,7 +583,29 @@ def _reverse_loop_over_forward_rules(case, message):
     return _explained_by(case, 'reverse_loop_over_forward_rules', 'A')
 
 
-EXCLUSIONS = {'obj_entity_exclusion_ignored': _obj_entity_exclusion_ignored,
+def _early_return_depends_on_rule_order(case, message):
+    """open finding C34-relattr-early-return-rule-order: inside the loop over the forward rules has_perm executes
+    `if not reverse_rules: return False` as soon as ONE forward rule does not grant a relationship attribute whose reverse
+    entity has no rule for the permission; a later forward rule that grants the attribute is then never looked at, so the
+    answer depends on the iteration order of a set of AccessRule objects (hashed by address)."""
+    focus = case.get('focus') or {}
+    target = focus.get('target') or [None, None]
+    if focus.get('kind') != 'rule_order' or target[0] != 'A' or focus.get('fn') not in M.PERMS:
+        return False
+    entity, rev, _ = M.ATTRS[target[1]]
+    if rev is None:
+        return False
+    ref = M.Ref(M.normalise(dict(case['cfg'])))
+    ui, fn = focus['user'], focus['fn']
+    if ref.registered(M.ATTRS[rev][0], fn):
+        return False                      # the reverse entity has rules: the early return cannot fire
+    g = ref.groups(ui)
+    grants = [r['groups'] <= g and entity not in r['xe'] and target[1] not in r['xa'] for r in ref.registered(entity, fn)]
+    return any(grants) and not all(grants)
+
+
+EXCLUSIONS = {'early_return_depends_on_rule_order': _early_return_depends_on_rule_order,
+              'obj_entity_exclusion_ignored': _obj_entity_exclusion_ignored,
               'reverse_loop_over_forward_rules': _reverse_loop_over_forward_rules}
 
 MANIFEST = {
